@@ -961,6 +961,95 @@ def relabel_execute(case):
     return out
 
 
+# ----------------------------------------------------------------------------------------------
+# part 7: duplicate() ("Copy without needing a deepcopy") of every material class, also after the composition was
+# re-specified through the public API: the copy has the same class, nuclides and fractions (hence sums to one when the
+# original does), the same reference density and density, and is independent of the original.
+
+
+def dup_strategy(tier):
+    comp = st.lists(st.tuples(st.integers(0, 10**6), st.floats(1e-6, 1.0, allow_nan=False)), min_size=1, max_size=8)
+    return st.fixed_dictionaries({"composition": comp.map(lambda l: [list(x) for x in l]), "enrich": st.floats(0.0, 1.0, allow_nan=False)})
+
+
+def _dup_clauses(out, nb, name, variant, cls, m):
+    before = dict(m.massFrac)
+    d = m.duplicate()
+    where = "%s [%s]" % (name, variant)
+    if not out.check(type(d) is cls, "duplicate/class-differs", lambda: "%s: duplicate is a %s" % (where, type(d).__name__)):
+        return
+    if not out.check(d.massFrac == before and m.massFrac == before, "duplicate/massfrac-differs",
+                     lambda: "%s: original %s (sum %.6f), duplicate %s (sum %.6f)"
+                     % (where, dict(sorted(before.items())), math.fsum(before.values()), dict(sorted(d.massFrac.items())), math.fsum(d.massFrac.values()))):
+        return
+    out.check(all(k in nb.byName for k in d.massFrac), "duplicate/unknown-nuclide", lambda: "%s: %s" % (where, sorted(d.massFrac)))
+    out.check(d.refDens == m.refDens and d.theoreticalDensityFrac == m.theoreticalDensityFrac and d.parent is m.parent,
+              "duplicate/refDens-differs", lambda: "%s: refDens %r vs %r, TD %r vs %r" % (where, m.refDens, d.refDens, m.theoreticalDensityFrac, d.theoreticalDensityFrac))
+    if name not in _EXCLUDED:
+        # density at a temperature inside the stated range (300 K when none is stated)
+        probe = _Probe(cls)
+        dom = _function_domain(probe, "density")
+        t, units = (_NOMINAL if not isinstance(dom, tuple) or dom[0] > dom[1] else (0.5 * (dom[0] + dom[1]), dom[2]))
+        kw = {"Tk": t} if units == "K" else {"Tc": t}
+        for fn in ("density", "pseudoDensity"):
+            a, b = getattr(m, fn)(**kw), getattr(d, fn)(**kw)
+            out.check(_isreal(a) == _isreal(b) and (not _isreal(a) or (float(a) == float(b))), "duplicate/density-differs",
+                      lambda: "%s: %s(%s) original %r duplicate %r" % (where, fn, kw, a, b))
+    # independence
+    out.check(d.massFrac is not m.massFrac, "duplicate/not-independent", lambda: "%s: the mass-fraction dict is shared" % where)
+    if name != "Custom":  # Custom.setMassFrac is refused until a density is given (documented)
+        for k in list(d.massFrac)[:1]:
+            d.setMassFrac(k, 0.5 * d.massFrac[k])
+        d.setMassFrac("HE4", 0.25)
+        d.refDens = (d.refDens or 0.0) + 1.0
+        out.check(m.massFrac == before, "duplicate/not-independent", lambda: "%s: changing the duplicate changed the original to %s" % (where, m.massFrac))
+
+
+def dup_execute(case):
+    from armi.nucDirectory import nuclideBases as nb
+
+    out = Out()
+    classes = _material_classes()
+    names = [n.name for n in nb.instances]
+    comp = {}
+    for idx, w in case["composition"]:
+        comp[names[idx % len(names)]] = comp.get(names[idx % len(names)], 0.0) + w
+    total = math.fsum(comp.values())
+    comp = {k: v / total for k, v in sorted(comp.items())}
+    n = 0
+    for name in sorted(classes):
+        cls = classes[name]
+        m = cls()
+        _dup_clauses(out, nb, name, "default", cls, m)
+        n += 1
+        if name in _EXCLUDED:
+            continue
+        # composition re-specified through the public API
+        m = cls()
+        m.clearMassFrac()
+        for k, v in comp.items():
+            m.setMassFrac(k, min(v, 1.0))
+        _dup_clauses(out, nb, name, "re-specified", cls, m)
+        n += 1
+        # enrichment adjusted (where the class names an enriched nuclide that is part of its default composition)
+        m = cls()
+        en = m.enrichedNuclide
+        if en and en in m.massFrac and len(m.massFrac) >= 2:
+            try:
+                m.adjustMassEnrichment(case["enrich"])
+            except ValueError:
+                out.label("enrich:refused")  # documented refusals (no other isotope to balance against, ...)
+                continue
+            if all(_isreal(v) for v in m.massFrac.values()):
+                _dup_clauses(out, nb, name, "enriched", cls, m)
+                out.label("variant:enriched")
+                n += 1
+    out.evals = n
+    out.nontrivial = len(comp) >= 2
+    out.label("nuclides:%d" % min(len(comp), 4))
+    return out
+
+
 PARTS = [
     Part("nuclides", nuc_execute, enumerate=nuc_enum, exhaustive=True, procs={"quick": 3, "thorough": 8},
          rule="every nuclide of the directory, one case per atomic number (plus a catch-all for Z outside 1..120): each identifier "
@@ -994,4 +1083,10 @@ PARTS = [
               "new label, byLabel[label] is that nuclide for every nuclide of the directory, no label owned by two nuclides, the old "
               "label does not resolve to another nuclide; original labels restored (checked) and the table reset per case; "
               "non-trivial = at least one re-labelling applied"),
+    Part("duplicate", dup_execute, strategy=dup_strategy, budget={"quick": 120, "thorough": 4000}, procs={"quick": 2, "thorough": 8},
+         rule="every Material class in every case: duplicate() of the fresh instance, of an instance whose composition was re-specified "
+              "(clearMassFrac + setMassFrac of a Hypothesis-drawn normalised composition over 1-8 directory nuclides) and of an instance "
+              "with adjusted enrichment; the copy has the same class, the same nuclides and fractions (all known nuclides), refDens/TD, "
+              "density and pseudoDensity at a temperature in the stated range, and changing the copy leaves the original unchanged; "
+              "non-trivial = drawn composition has >= 2 nuclides"),
 ]
